@@ -20,7 +20,7 @@ PROFILES = {
         "ci", "ranges", "builtins", "unicode", "soi", "trivia", "atomic", "stack", "tags", "recursion",
         "groups", "emptystr", "leak",
     },
-    "bait": {"ci", "ranges", "builtins", "unicode", "soi", "trivia", "atomic", "bait", "groups"},
+    "bait": {"ci", "ranges", "builtins", "unicode", "soi", "trivia", "atomic", "bait", "groups", "tags", "leak"},
 }
 PROFILES["soi-free"] = PROFILES["full"] - {"soi"}
 
@@ -38,6 +38,7 @@ COMMENT_BODIES = [
     ("seq", (("str", "/*"), ("star", ("seq", (("not", ("str", "*/")), ("id", "ANY")))), ("str", "*/"))),
     ("seq", (("str", "#"), ("star", ("seq", (("not", ("id", "NEWLINE")), ("id", "ANY")))))),
     ("seq", (("str", "<"), ("star", ("range", "a", "b")), ("str", ">"))),
+    ("seq", (("str", "/*"), ("str", "c"), ("str", "*/"))),
 ]
 CHAR_SAMPLES = {
     "ANY": "ab1 Aé",
@@ -238,6 +239,7 @@ class Gen:
             e = ("grp", e)
             return self.maybe_tag(e), nl
         if c == "bait":
+            self._later = later
             return self.bait(need)
         if c == "leak":
             return self.leak(need, later)
@@ -304,6 +306,13 @@ class Gen:
             stops = [("str", r.choice(["a", "b", "ab", "#", " ", "*/", "\n", "ba"])) for _ in range(n)]
             if r.random() < 0.2 and self.names_silent_lits:
                 stops.append(("id", r.choice(self.names_silent_lits)))
+            if r.random() < 0.12:
+                # the stop is a silent rule whose own body is a skip-until shape
+                name = "x%d__" % len(self.extra)
+                self.extra.append((name, "_", ("star", ("grp", ("seq", (("not", ("str", r.choice(["a", "b"]))), ("id", "ANY")))))))
+                self.nullable[name] = True
+                stops = [("id", name)]
+                n = 1
             inner = stops[0] if n == 1 and r.random() < 0.5 else ("grp", ("alt", tuple(stops))) if len(stops) > 1 else ("grp", stops[0])
             body = ("grp", ("seq", (("not", inner), ("id", "ANY"))))
             if need:
@@ -331,11 +340,18 @@ class Gen:
                 else:
                     alts.append(self.char_rule())
             return ("alt", tuple(alts)), False
-        # (e)+ / (e){n} over groups
-        e = ("grp", ("seq", (("str", r.choice(["a", "b"])), ("opt", ("str", r.choice(["b", "x"]))))))
-        if r.random() < 0.5:
-            return ("plus", e), False
-        return ("exact", e, r.randint(2, 3)), False
+        # (e)+ / (e){n} over groups, possibly tagged and with a pair-producing rule inside
+        first = ("str", r.choice(["a", "b"]))
+        cands = [nm for nm in getattr(self, "_later", []) if not self.nullable.get(nm, True)]
+        if cands and r.random() < 0.6:
+            first = ("id", r.choice(cands))
+        e = ("grp", ("seq", (first, ("opt", ("str", r.choice(["b", "x"]))))))
+        rep = ("plus", e) if r.random() < 0.5 else ("exact", e, r.randint(2, 3))
+        if "tags" in self.f and r.random() < 0.5:
+            if r.random() < 0.5:
+                return ("tag", r.choice(["tg", "t2"]), rep), False  # #tag = (e)+  : one term
+            return (rep[0], ("tag", r.choice(["tg", "t2"]), e)) + rep[2:], False  # (#tag = (e))+
+        return rep, False
 
     # ------------------------------------------------------------------ grammars
     def grammar(self):
@@ -367,6 +383,20 @@ class Gen:
                     extra.append(("ws__", "_", r.choice([("str", " "), ("alt", (("str", " "), ("str", "\t")))])))
             if r.random() < 0.45 or w >= 0.9:
                 extra.append(("COMMENT", r.choice(["_", "_", ""]), r.choice(COMMENT_BODIES)))
+            if extra and r.random() < 0.25:
+                # an explicit reference to a trivia rule (its body must still be matched atomically)
+                tname = r.choice([x[0] for x in extra if x[0] in ("WHITESPACE", "COMMENT")])
+                i = r.randrange(len(rules))
+                nm, md, ex = rules[i]
+                ref = ("id", tname)
+                k = r.randrange(3)
+                if k == 0:
+                    ex = ("seq", (ex, ("opt", ref)))
+                elif k == 1:
+                    ex = ("seq", (ref, ex))
+                else:
+                    ex = ("alt", (("seq", (ref, ("str", "a"))), ex))
+                rules[i] = (nm, md, ex)
             rules = extra + rules if r.random() < 0.5 else rules + extra
         return rules
 
